@@ -70,7 +70,7 @@ def forbidden_tokens() -> List[str]:
 def obligations(prop: str) -> List[str]:
     """Names listed after `OBLIGATIONS:` in the header comment of Props/<prop>.lean."""
     src = (LEAN_DIR / "Deepali" / "Props" / f"{prop}.lean").read_text()
-    m = re.search(r"OBLIGATIONS:(.*?)-/", src, re.S)
+    m = re.search(r"OBLIGATIONS:(.*?)(?:\n\s*\n|-/)", src, re.S)
     if not m:
         return []
     return [t for t in m.group(1).split() if re.match(r"^[A-Za-z_][A-Za-z0-9_']*$", t)]
